@@ -11,7 +11,7 @@ Record kcase := KCase {
 }.
 Definition with_bus (bus : list (Z * cev)) (it : citer) : citer :=
   CIter (ci_now it) (ci_restart it) (List.filter (fun p => (fst p <=? ci_limit it)%Z) bus)
-        (ci_calls it) (ci_worlds it) (ci_queue it) (ci_next it) (ci_exc it) (ci_limit it) (ci_ret it).
+        (ci_calls it) (ci_worlds it) (ci_queue it) (ci_next it) (ci_exc it) (ci_limit it) (ci_ret it) (ci_skips it).
 
 Fixpoint run_iters (c : ccfg) (outs : list hres) (cl : client) (its : list citer) : client :=
   match its with [] => cl | it :: r => run_iters c outs (run_iter c outs cl it) r end.
